@@ -1011,3 +1011,103 @@ def replay(ctx, rep):   # noqa: F811
         pye()
         return common.scenario_replay(ctx, rep, {'reload': reload_scenarios})
     return _replay_main(ctx, rep)
+
+
+# ---------------------------------------------------------------------------
+# the same relative path string names different files from different directories
+
+def same_relative_scenarios(ctx, out):
+    import tempfile as _tf
+    from pyecore.ecore import EClass, EAttribute, EReference, EString, EPackage
+    from pyecore.resources import ResourceSet, URI
+    from pyecore.resources.json import JsonResource
+    rng = common.rng_for(ctx.seed, 'C14:samerel')
+    n = 12 if ctx.tier != 'thorough' else 200
+    cnt = 0
+    for it in range(n):
+        fmt = 'xmi' if it % 2 == 0 else 'json'
+        pkg = EPackage('p', nsURI=f'http://verif/c14/samerel/{it}', nsPrefix='p')
+        Node = EClass('Node')
+        Node.eStructuralFeatures.append(EAttribute('name', EString))
+        Node.eStructuralFeatures.append(EReference('kids', Node, upper=-1, containment=True))
+        Node.eStructuralFeatures.append(EReference('one', Node))
+        pkg.eClassifiers.append(Node)
+
+        def new_rset():
+            rs = ResourceSet()
+            rs.metamodel_registry[pkg.nsURI] = pkg
+            if fmt == 'json':
+                rs.resource_factory['json'] = lambda uri: JsonResource(uri)
+            return rs
+        rel = rng.choice(['', 'sub', '../shared'])          # where the target lies relatively to each referrer
+        ndirs = rng.choice([2, 2, 3])
+        order = list(range(ndirs))
+        rng.shuffle(order)
+        touch = rng.choice(['name', 'force', 'eq'])
+        hist = {'format': fmt, 'relative_dir': rel, 'dirs': ndirs, 'load_order': order, 'touch': touch}
+        case = {'scenario': 'samerel', 'seed': ctx.seed, 'tier': ctx.tier, 'history': hist}
+        sig = {'property': 'C14', 'clause': None, 'scenario': 'samerel', 'format': fmt}
+        with _tf.TemporaryDirectory() as tmp:
+            try:
+                rs = new_rset()
+                pas, pbs = [], []
+                for d in range(ndirs):
+                    base = os.path.join(tmp, f'd{d}', 'in')
+                    tdir = os.path.normpath(os.path.join(base, rel))
+                    os.makedirs(base, exist_ok=True)
+                    os.makedirs(tdir, exist_ok=True)
+                    pa, pb = os.path.join(base, f'a.{fmt}'), os.path.join(tdir, f'b.{fmt}')
+                    a, b = Node(name=f'a{d}'), Node(name=f'b{d}')
+                    b.kids.append(Node(name=f'b{d}.k'))
+                    ra, rb = rs.create_resource(URI(pa)), rs.create_resource(URI(pb))
+                    ra.append(a)
+                    rb.append(b)
+                    a.one = b.kids[0] if rng.random() < 0.5 else b
+                    hist.setdefault('targets', []).append(a.one.name)
+                    pas.append(pa)
+                    pbs.append(pb)
+                for r in list(rs.resources.values()):
+                    r.save()
+                rs2 = new_rset()
+                for d in order:
+                    la = rs2.get_resource(URI(pas[d])).contents[0]
+                    ref = la.one
+                    cnt += 1
+                    want = hist['targets'][d]
+                    if touch == 'name':
+                        got = ref.name
+                    elif touch == 'force':
+                        got = ref.force_resolve().name
+                    else:       # compared with the object reached by loading the intended file directly
+                        tres = rs2.get_resource(URI(pbs[d]))
+                        cands = [x for root in tres.contents for x in [root] + list(root.eAllContents())]
+                        got = next((x.name for x in cands if x.name == want and ref == x), None) or \
+                            f'something else ({ref.name!r} of {getattr(ref.eResource, "uri", None) and os.path.relpath(ref.eResource.uri.normalize(), tmp)})'
+                    if got != want:
+                        sig['clause'] = 'same-relative-path-reaches-another-directory'
+                        out.fail(sig, f'{os.path.relpath(pas[d], tmp)} refers to {want!r} through the relative path '
+                                      f'{os.path.join(rel, "b." + fmt)!r} but reaches {got!r} '
+                                      f'(load order {order}, keys {sorted(os.path.relpath(k, tmp) if os.path.isabs(str(k)) else str(k) for k in rs2.resources)})', case)
+                        break
+            except Exception as e:  # noqa
+                sig['clause'] = 'samerel-raised'
+                out.fail(sig, f'{type(e).__name__}: {e}', case)
+    out.coverage['same_relative_path_references'] = cnt
+
+
+_run_main2 = run
+
+
+def run(ctx, out):   # noqa: F811
+    _run_main2(ctx, out)
+    same_relative_scenarios(ctx, out)
+
+
+_replay_main2 = replay
+
+
+def replay(ctx, rep):   # noqa: F811
+    if rep.get('case', {}).get('scenario') == 'samerel':
+        pye()
+        return common.scenario_replay(ctx, rep, {'samerel': same_relative_scenarios})
+    return _replay_main2(ctx, rep)
